@@ -3,6 +3,7 @@ package props
 import (
 	"fmt"
 	"math"
+	"math/big"
 	"math/rand"
 	"strconv"
 	"strings"
@@ -254,6 +255,13 @@ func c10Structured(r *fw.Rec, kind string, blk, nblk int) {
 			add("0xM7FF0000000000000FFF0000000000000", "extreme:infinities-of-opposite-sign")
 			add("0xM7FF00000000000007FF0000000000000", "extreme:infinities-of-equal-sign")
 			add("0xM00000000000000010000000000000000", "extreme:smallest-subnormal")
+			// canonical pairs whose two doubles are as far apart as doubles can be
+			add("0xM40100000000000000000000000000001", "extreme:wide-pair")
+			add("0xM7FEFFFFFFFFFFFFF8000000000000001", "extreme:wide-pair")
+			add("0xM7FE0000000000000396FFFFFFFFFFFFF", "extreme:wide-pair")
+			add("0xM4340000000000000000FFFFFFFFFFFFF", "extreme:wide-pair")
+			add("0xM7FD00000000000000000000000000001", "extreme:wide-pair")
+			add("0xMFFD00000000000008000000000000001", "extreme:wide-pair")
 		}
 	}
 	// one-digit mantissas times powers of ten, both signs (the printer's
@@ -308,7 +316,7 @@ func c10Structured(r *fw.Rec, kind string, blk, nblk int) {
 	// 0xM take the first 16 digits as their first word once there are 16)
 	if pfx, full := map[string]string{"half": "0xH", "x86_fp80": "0xK", "fp128": "0xL", "ppc_fp128": "0xM"}[kind], map[string]int{"half": 4, "x86_fp80": 20, "fp128": 32, "ppc_fp128": 32}[kind]; pfx != "" && blk == 0 {
 		for n := 1; n < full; n++ {
-			for k := 0; k < 3; k++ {
+			for k := 0; k < 5; k++ {
 				var sb strings.Builder
 				for i := 0; i < n; i++ {
 					switch k {
@@ -316,8 +324,14 @@ func c10Structured(r *fw.Rec, kind string, blk, nblk int) {
 						sb.WriteByte("0123456789ABCDEF"[rng.Intn(16)])
 					case 1:
 						sb.WriteByte('F')
-					default:
+					case 2:
 						sb.WriteByte("01"[btoi(i == n-1)])
+					case 3:
+						// a leading 8 (the sign bit of the first word), zeros after it
+						sb.WriteByte("08"[btoi(i == 0)])
+					default:
+						// a leading 8, zeros, a final 1 (negative denormals of x86_fp80)
+						sb.WriteByte("081"[btoi(i == 0)+2*btoi(i == n-1 && n > 1)])
 					}
 				}
 				cls := fmt.Sprintf("short-hex:%d-digits", n)
@@ -629,6 +643,22 @@ func c10DiffClass(kind, class, in, got string) string {
 		return "nan-changed"
 	}
 	if kind == "ppc_fp128" && len(in) == 35 && len(got) == 35 {
+		// a canonical pair (high = the double nearest to the sum, low = the
+		// remainder, low not -0.0) is exactly what the library holds and splits
+		// again: it must come back unchanged (the listed findings are about the
+		// other pairs)
+		hb, e1 := strconv.ParseUint(in[3:19], 16, 64)
+		lb, e2 := strconv.ParseUint(in[19:], 16, 64)
+		if e1 == nil && e2 == nil {
+			hi, lo := math.Float64frombits(hb), math.Float64frombits(lb)
+			if !math.IsInf(hi, 0) && !math.IsNaN(hi) && !math.IsInf(lo, 0) && !math.IsNaN(lo) && lb != 1<<63 && (hi != 0 || lb == 0) {
+				sum := new(big.Float).SetPrec(2300).SetFloat64(hi)
+				sum.Add(sum, new(big.Float).SetPrec(2300).SetFloat64(lo))
+				if h2, _ := sum.Float64(); h2 == hi {
+					return "canonical-pair-changed"
+				}
+			}
+		}
 		if in[:19] == got[:19] {
 			return "low-double-changed"
 		}
